@@ -384,6 +384,105 @@ fn decode_indep(t: &mut Tape, seeds: &[String]) -> IndepCase {
     IndepCase { list, junk, hosts_format, crlf: t.chance(1, 2), optimize: t.chance(1, 2) }
 }
 
+// ---- several add calls with different options on ONE FilterSet -----------------------------------
+
+#[derive(Clone, Debug, Serialize, Deserialize)]
+pub struct MultiCase {
+    /// per call: (lines, hosts format, rule types 0 all / 1 network only / 2 cosmetic only, permission bits)
+    pub calls: Vec<(Vec<String>, bool, u8, u8)>,
+    pub optimize: bool,
+}
+impl Case for MultiCase {
+    fn smaller(&self) -> Vec<Self> {
+        let mut v = vec![];
+        for i in 0..self.calls.len() {
+            if self.calls.len() > 1 {
+                let mut c = self.clone();
+                c.calls.remove(i);
+                v.push(c);
+            }
+            for k in 0..self.calls[i].0.len() {
+                let mut c = self.clone();
+                c.calls[i].0.remove(k);
+                v.push(c);
+            }
+        }
+        v
+    }
+}
+
+fn multi_opts(hosts: bool, rt: u8, perm: u8) -> ParseOptions {
+    ParseOptions {
+        format: if hosts { FilterFormat::Hosts } else { FilterFormat::Standard },
+        rule_types: match rt % 3 {
+            0 => RuleTypes::All,
+            1 => RuleTypes::NetworkOnly,
+            _ => RuleTypes::CosmeticOnly,
+        },
+        permissions: adblock::resources::PermissionMask::from_bits(perm),
+        ..Default::default()
+    }
+}
+
+/// A line rejected under the options of ITS call is skipped without influence - also on the same
+/// text arriving in another call with other options: the set built from the calls equals the set
+/// built from the same calls with each call's individually rejected lines deleted.
+pub fn check_multi(c: &MultiCase, obs: &mut Obs) -> Result<(), String> {
+    let build = |calls: &Vec<(Vec<String>, bool, u8, u8)>| -> Vec<u8> {
+        let mut fs = FilterSet::new(false);
+        for (lines, hosts, rt, perm) in calls {
+            fs.add_filters(lines, multi_opts(*hosts, *rt, *perm));
+        }
+        Engine::from_filter_set(fs, c.optimize).serialize_raw().unwrap_or_default()
+    };
+    let mut cleaned = c.calls.clone();
+    let mut dropped = 0;
+    let mut kept_twice = false;
+    let mut seen: HashSet<String> = HashSet::new();
+    for (lines, hosts, rt, perm) in cleaned.iter_mut() {
+        let o = multi_opts(*hosts, *rt, *perm);
+        let before = lines.len();
+        lines.retain(|l| parse_filter(l, false, o).is_ok());
+        dropped += before - lines.len();
+    }
+    for (lines, _, _, _) in &c.calls {
+        for l in lines {
+            if !seen.insert(l.trim().to_string()) {
+                kept_twice = true;
+            }
+        }
+    }
+    obs.inner_evals += 2;
+    if dropped > 0 && kept_twice {
+        obs.nontrivial = true;
+        obs.label("text-repeated-across-calls");
+    }
+    if build(&c.calls) != build(&cleaned) {
+        return Err(format!("calls {:?}: deleting the lines that each call rejects on its own changes the engine (cleaned: {:?})", c.calls, cleaned));
+    }
+    Ok(())
+}
+
+fn decode_multi(t: &mut Tape, seeds: &[String]) -> MultiCase {
+    // a shared pool so that the same text arrives in several calls
+    let mut pool: Vec<String> = gen::full_case(t, &NetCfg { max_rules: 10, max_reqs: 1, ..Default::default() }, 4).rules;
+    for _ in 0..(1 + t.pick(3)) {
+        pool.push(t.choose_ref(seeds).clone());
+    }
+    pool.extend(gen::hosts_case(t).rules.into_iter().take(3));
+    pool.push("example.com##+js(perm)".into());
+    pool.push(t.choose(gen::JUNK).to_string());
+    let mut calls = vec![];
+    for _ in 0..(2 + t.pick(3)) {
+        let mut lines = vec![];
+        for _ in 0..(1 + t.pick(6)) {
+            lines.push(t.choose_ref(&pool).clone());
+        }
+        calls.push((lines, t.chance(1, 4), t.pick(3) as u8, [0u8, 0, 1, 3][t.pick(4)]));
+    }
+    MultiCase { calls, optimize: t.chance(1, 2) }
+}
+
 // ---- hosts equivalence and rule-type options ----------------------------------------------------
 
 #[derive(Clone, Debug, Serialize, Deserialize)]
@@ -450,7 +549,9 @@ fn decode_hosts_eq(t: &mut Tape) -> HostsEq {
         2 => "bücher.example.de".to_string(),
         3 => "пример.рф".to_string(),
         4 => format!("{}.", reg).trim_end_matches('.').to_string(),
-        5 => format!("a_b.{}", reg),
+        5 if t.chance(1, 2) => format!("a_b.{}", reg),
+        // ASCII names with `xn--` labels that are not valid punycode: neither format validates them
+        5 => format!("{}{}", t.choose(&["xn--a.", "cdn.xn--0.", "xn--abc-.", "XN--Tracker.", "xn--.", "xn--bcher-kva."]), reg),
         6 if t.chance(1, 2) => {
             // long names: labels up to 70 octets, up to 130 labels (no DNS length limit applies to rules)
             let mut s = String::new();
@@ -603,7 +704,7 @@ fn decode_meta(t: &mut Tape) -> MetaCase {
 }
 
 pub fn check(ctx: &mut Ctx) {
-    ctx.rule = "mutate: for each seed rule (one per distinct shape harvested from the lists under /repo/data + 60 hand-written exotic rules) EVERY char offset x 28 inserted/replaced strings (multi-byte chars, U+2028, combining mark, NUL, TAB, '$ # | , ~ * \\ ( )' ...) + every prefix/suffix; lines: random splices of rule fragments, option keywords and arbitrary code points. Each line goes through parse_filter (2 formats x 3 rule-type options x debug x permission byte), NetworkFilter::parse, CosmeticFilter::parse, parse_hosts_style, read_list_metadata, FilterSet::add_filter[_list], and, when it parses, ids/tokens/matching, engine build (optimise on/off), network/csp/cosmetic queries and a serialize round trip: nothing may panic. independence: list + injected lines that the parser rejects individually => identical serialized engine (also with the list's own rejected lines deleted, and through add_filter_list with LF/CRLF). hosts-eq: hosts entry vs '||host^'. rule-types: NetworkOnly/CosmeticOnly engines vs engines of the lines of one kind. meta: header blocks with multi-byte chars straddling byte 1024. Non-trivial (mutate/lines) = mutated line that still parses or is rejected by a rule parser rather than by kind detection.".into();
+    ctx.rule = "mutate: for each seed rule (one per distinct shape harvested from the lists under /repo/data + 60 hand-written exotic rules) EVERY char offset x 28 inserted/replaced strings (multi-byte chars, U+2028, combining mark, NUL, TAB, '$ # | , ~ * \\ ( )' ...) + every prefix/suffix; lines: random splices of rule fragments, option keywords and arbitrary code points. Each line goes through parse_filter (2 formats x 3 rule-type options x debug x permission byte), NetworkFilter::parse, CosmeticFilter::parse, parse_hosts_style, read_list_metadata, FilterSet::add_filter[_list], and, when it parses, ids/tokens/matching, engine build (optimise on/off), network/csp/cosmetic queries and a serialize round trip: nothing may panic. independence: list + injected lines that the parser rejects individually => identical serialized engine (also with the list's own rejected lines deleted, and through add_filter_list with LF/CRLF). hosts-eq: hosts entry vs '||host^' (incl. '#' comments glued to the name, names of up to 130 labels, bogus xn-- labels). multi-call: 2-4 add_filters calls on ONE FilterSet with different formats / rule-type options / permissions over a shared pool of lines (so the same text arrives under several options) vs the same calls with each call's individually rejected lines deleted. rule-types: NetworkOnly/CosmeticOnly engines vs engines of the lines of one kind. meta: header blocks with multi-byte chars straddling byte 1024. Non-trivial (mutate/lines) = mutated line that still parses or is rejected by a rule parser rather than by kind detection.".into();
     ctx.assumptions = vec!["hosts equivalence is asserted for hosts spelled in lower case (upper-case hosts only for totality)".into()];
     let all_seeds = seeds(ctx.tier.pick(400, 1500));
     let n_seeds = all_seeds.len() as u64;
@@ -618,6 +719,8 @@ pub fn check(ctx: &mut Ctx) {
     drive(ctx, "independence", n, 800, &|t| decode_indep(t, seeds_ref), &check_indep);
     let n = ctx.tier.pick(10_000, 400_000);
     drive(ctx, "hosts-eq", n, 200, &decode_hosts_eq, &check_hosts_eq);
+    let n = ctx.tier.pick(12_000, 200_000);
+    drive(ctx, "multi-call", n, 900, &|t| decode_multi(t, seeds_ref), &check_multi);
     let n = ctx.tier.pick(5_000, 200_000);
     drive(ctx, "rule-types", n, 900, &|t| gen::full_case(t, &NetCfg { max_rules: 16, ..Default::default() }, 4), &check_rule_types);
     let n = ctx.tier.pick(10_000, 300_000);
@@ -630,6 +733,7 @@ pub fn replay(ctx: &mut Ctx, v: &Value) {
         Some("lines") => replay_file::<LineCase>(ctx, v, &check_line),
         Some("independence") => replay_file::<IndepCase>(ctx, v, &check_indep),
         Some("hosts-eq") => replay_file::<HostsEq>(ctx, v, &check_hosts_eq),
+        Some("multi-call") => replay_file::<MultiCase>(ctx, v, &check_multi),
         Some("rule-types") => replay_file::<FullCase>(ctx, v, &check_rule_types),
         Some("meta") => replay_file::<MetaCase>(ctx, v, &check_meta),
         _ => replay_file::<MutCase>(ctx, v, &check_mut),
